@@ -1,6 +1,6 @@
 use crate::{
     ast::{DataType, DataTypeMember, Struct, Variant},
-    attr::{ChildAttr, ChildParentsAttr, DataTypeAttrs, DataTypeInstruction, FallibleKind, GhostsAttr, Kind, MemberAttrs, MemberInstruction, ParentAttr, TraitAttr, TraitAttrCore, TypeHint, TypePath, WhereAttr},
+    attr::{ChildAttr, ChildParentsAttr, DataTypeAttrs, DataTypeInstruction, FallibleKind, GhostIdent, GhostsAttr, Kind, MemberAttrs, MemberInstruction, ParentAttr, TraitAttr, TraitAttrCore, TypeHint, TypePath, WhereAttr},
 };
 use proc_macro2::Span;
 use quote::ToTokens;
@@ -43,6 +43,8 @@ pub(crate) fn validate(input: &DataType) -> Result<()> {
     validate_ghost_attrs(&Kind::RefInto, &attrs.ghosts_attrs, &type_paths, &mut errors);
     validate_ghost_attrs(&Kind::OwnedIntoExisting, &attrs.ghosts_attrs, &type_paths, &mut errors);
     validate_ghost_attrs(&Kind::RefIntoExisting, &attrs.ghosts_attrs, &type_paths, &mut errors);
+
+    validate_ghost_entries(&attrs.ghosts_attrs, matches!(input, DataType::Enum(_)), &mut errors);
 
     validate_child_parents_attrs(&attrs.child_parents_attrs, &type_paths, &mut errors);
     validate_where_attrs(&attrs.where_attrs, &type_paths, &mut errors);
@@ -87,6 +89,8 @@ pub(crate) fn validate(input: &DataType) -> Result<()> {
                 validate_dedicated_member_attrs(&member_attrs.lit_attrs, |x| x.container_ty.as_ref(), Some("literal"), member_span, &type_paths, &mut errors);
                 validate_dedicated_member_attrs(&member_attrs.pat_attrs, |x| x.container_ty.as_ref(), Some("pattern"), member_span, &type_paths, &mut errors);
                 validate_dedicated_member_attrs(&member_attrs.type_hint_attrs, |x| x.container_ty.as_ref(), Some("type_hint"), member_span, &type_paths, &mut errors);
+
+                validate_ghost_entries(&member_attrs.ghosts_attrs, false, &mut errors);
             },
         }
 
@@ -196,6 +200,20 @@ fn validate_ghost_attrs(kind: &Kind, ghost_attrs: &[GhostsAttr], type_paths: &Ha
         }
         if !unique_dedicated_attr_type_path.insert(tp) {
             errors.insert(format!("Dedicated #[ghosts(...)] instruction for type {} is already defined.", tp.path_str), tp.span);
+        }
+    }
+}
+
+fn validate_ghost_entries(ghost_attrs: &[GhostsAttr], enum_level: bool, errors: &mut HashMap<String, Span>) {
+    for ghost_data in ghost_attrs.iter().flat_map(|x| &x.attr.ghost_data) {
+        match (&ghost_data.ghost_ident, enum_level) {
+            (GhostIdent::Destruction(destr), false) => {
+                errors.insert(format!("Ghost '{}' is a variant pattern. Variant patterns are only expected in #[ghosts(...)] instructions of an enum.", destr), destr.span());
+            },
+            (GhostIdent::Member(syn::Member::Unnamed(index)), true) => {
+                errors.insert(format!("Ghost '{}' is an index. #[ghosts(...)] instructions of an enum expect variant names or variant patterns.", index.index), index.span);
+            },
+            _ => (),
         }
     }
 }
